@@ -2,7 +2,7 @@
 B1 balanced emission, B2 construct nesting / value-word agreement with the parser, B3 bus-bit naming convention."""
 import ast
 
-from ..core import AnalysisError, norm, short, walk_local, parent_chain
+from ..core import AnalysisError, norm, short, walk_local, parent_chain, reaching_assign
 from ..cfg import cfg_of, forward, node_exprs, Branch
 from . import register
 
@@ -463,8 +463,24 @@ def check_c03(ctx, R):
     rd = {}
     for c in calls:
         rd["id" if "id" in norm(c.args[0]) else "name"] = c.args[1].value
-    closers = {c.comparators[0].value for c in walk_local(sep.node) if isinstance(c, ast.Compare) and isinstance(c.comparators[0], ast.Constant)
-               and isinstance(c.comparators[0].value, str) and len(c.comparators[0].value) == 1 and norm(c.left).endswith("[-1][-1]")}
+    # the splitter and the private helpers it hands the work to (named in its body, or in a class-level table its body reads)
+    mentioned = {x.id for x in walk_local(sep.node) if isinstance(x, ast.Name)} | {x.attr for x in walk_local(sep.node) if isinstance(x, ast.Attribute)}
+    for tname, tval in par.class_assigns.items():
+        if tname in mentioned:
+            mentioned |= {x.id for x in ast.walk(tval) if isinstance(x, ast.Name)} | {x.attr for x in ast.walk(tval) if isinstance(x, ast.Attribute)}
+    sep_funcs = [sep] + [par.methods[m] for m in sorted(mentioned) if m in par.methods and m.startswith("_") and par.methods[m] is not sep]
+    closers = set()
+    for sf in sep_funcs:
+        for c in walk_local(sf.node):
+            if isinstance(c, ast.Compare) and len(c.ops) == 1 and isinstance(c.ops[0], ast.Eq) and isinstance(c.comparators[0], ast.Constant) \
+                    and isinstance(c.comparators[0].value, str) and len(c.comparators[0].value) == 1 and not c.comparators[0].value.isalnum():
+                left = norm(c.left)
+                if isinstance(c.left, ast.Subscript) and isinstance(c.left.value, ast.Name):
+                    d = reaching_assign(c, c.left.value.id)
+                    if d is not None and d.value is not None:
+                        left = "%s%s" % (norm(d.value), left[len(c.left.value.id):])
+                if left.endswith("[-1][-1]"):
+                    closers.add(c.comparators[0].value)
     if not idd or not nmd or len(rd) != 2:
         raise AnalysisError("B3: cannot extract the bus-bit delimiters (writer %s/%s, reader %s)" % (idd, nmd, rd))
     if idd[:2] == [rd["id"], rd["id"]] or (len(idd) == 2 and idd[0] == rd["id"] and idd[1] == rd["id"]):
@@ -644,6 +660,8 @@ def toposort_template(P):
                     continue
                 emits = [c for c in ast.walk(pop_if[0]) if isinstance(c, ast.Call) and isinstance(c.func, ast.Attribute) and c.func.attr == "append"
                          and norm(c.func.value) != stack and c.args and norm(c.args[0]) == cur]
+                # a sort written as a generator emits by yielding the node
+                emits += [y for y in ast.walk(pop_if[0]) if isinstance(y, ast.Yield) and y.value is not None and norm(y.value) == cur]
                 vis = None
                 for c, child, g in pushes:
                     if g is not None:
